@@ -175,23 +175,22 @@ def run_impl(asm, workdir, prio=None):
     blocks = mesh.block_list.blocks
     res = dict(verts=[[v.index for v in b.vertices] for b in blocks], co=co, nb=nb, tol=float(constants.TOL))
     res["positions"] = [[list(map(float, v.position)) for v in b.vertices] for b in blocks]
-    # owner of every wire's own Grading object (kept alive so that ids are not reused)
-    keep = []
-    owner = {}
-    for bi, b in enumerate(blocks):
-        for ai, ax in enumerate(b.axes):
-            for k, w in enumerate(ax.wires.wires):
-                keep.append(w.grading)
-                owner[id(w.grading)] = (bi, ai, k)
-    fills = []  # calls of Grading.add_chop on a wire's own grading: (wire, index, length, chop view, E)
+    # a Grading that receives a chop belongs to the wire whose .grading it is at that moment (undefined gradings are
+    # never shared; the axis-level and the fictional average-length Gradings belong to no wire)
+    all_wires = [((bi, ai, k), w) for bi, b in enumerate(blocks) for ai, ax in enumerate(b.axes)
+                 for k, w in enumerate(ax.wires.wires)]
+    fills = []  # calls of Grading.add_chop on a wire's grading: (wire, index, length, chop view, resulting section)
     orig_add = Grading.add_chop
 
     def add_chop(self, chop):
         i = len(self.specification)
         orig_add(self, chop)
-        w = owner.get(id(self))
-        if w is not None:
-            fills.append(dict(wire=list(w), index=i, length=float(self.length), chop=chop_view(chop),
+        owners = [lab for lab, w in all_wires if w.grading is self]
+        if len(owners) == 1:
+            fills.append(dict(wire=list(owners[0]), index=i, length=float(self.length), chop=chop_view(chop),
+                              spec=[float(self.specification[-1][0]), int(self.specification[-1][1]), float(self.specification[-1][2])]))
+        elif len(owners) > 1:
+            fills.append(dict(wire=list(owners[0]), index=i, length=float(self.length), chop=None, shared=len(owners),
                               spec=[float(self.specification[-1][0]), int(self.specification[-1][1]), float(self.specification[-1][2])]))
 
     calls = [0]
@@ -337,7 +336,11 @@ def direct_oracle(asm, res):
     if out.startswith("error:"):
         return "unexpected exception %s: %s" % (out, res.get("message"))
     if out != "ok":
-        return None  # refusals (undefined / inconsistent) are judged by C01/C02; nothing is written
+        # refusals: nothing is written.  With exactly one chopped direction in every family there is nothing to disagree
+        # about, so a refusal of such an assembly is wrong (other refusals are judged by C01/C02)
+        if all(len([x for x in fam if x in asm.chops]) == 1 for fam in gc.families(asm)):
+            return "every family has exactly one chopped direction but writing is refused (%s)" % out
+        return None
     parsed = res["parsed"]
     nb = len(asm.cells)
     if len(parsed) != nb:
@@ -734,6 +737,8 @@ class C04(Prop):
             cls = "simple-with-unequal-gradings"
         elif why.startswith("unexpected exception"):
             cls = "exception"
+        elif why.startswith("every family has exactly one chopped direction"):
+            cls = "well-posed-assembly-refused"
         else:
             cls = re.sub(r"[0-9.]+", "#", why)[:50]
         return "%s:%s:%s" % (self.pid, rp.get("kind"), cls)
